@@ -66,7 +66,11 @@ def body(chk: check.Check):
     small = next(r for r in cm.runs('quick') if r['name'] == 'nl')
     small = dict(small, consts=dict(small['consts'], LabelSeqs=[cm.L3], AVecs=[(1, 2, 2), (3, 4, 1)]))
     # (1) a generating function whose alone term forgets the scale: not homogeneous of degree mu, derivative wrong
-    res = cm.run_mutant(small, 'alone-unscaled', ['Euler', 'DerivativeExact'])
+    two = dict(small, consts=dict(small['consts'], NlMuPairs=[('2', '3/2')], TopMus=('1',)))
+    mutants = cm.together({     # the TLC runs of the controls, at the same time
+        'alone-unscaled': lambda: cm.run_mutant(small, 'alone-unscaled', ['Euler', 'DerivativeExact']),
+        'names-matter': lambda: cm.run_mutant(two, 'names-matter', ['NamesIrrelevant'])})
+    res = mutants['alone-unscaled']
     chk.control('ChoiceModels with Mutation = alone-unscaled: TLC must report Euler or DerivativeExact',
                 res.violated in ('Euler', 'DerivativeExact'), f'violated={res.violated}')
     groups = cm.groups(emitted['nl'])
@@ -104,14 +108,13 @@ def body(chk: check.Check):
                 f'clauses={sorted(val["counts"]) if st == "ok" else val}')
 
     # (6) the names of the nest objects: a specification in which a nest takes the parameter of the nest it shares its name with
-    two = dict(small, consts=dict(small['consts'], NlMuPairs=[('2', '3/2')], TopMus=('1',)))
-    res = cm.run_mutant(two, 'names-matter', ['NamesIrrelevant'])
+    res = mutants['names-matter']
     chk.control('ChoiceModels with Mutation = names-matter (nests keyed by name): TLC must report NamesIrrelevant',
                 res.violated == 'NamesIrrelevant', f'violated={res.violated}')
     # (7) ... and a library that does the same: objects no longer give what the tuples give, published terms no longer the derivative
     two_nests = next(g for g in groups if len(g[0]['labels']) == 4 and len(cm.nl_members(g[0])) == 2
-                     and len(cm.nl_members(g[0])[0][1]) == 2 and g[0]['mus'] == [[2, 1], [3, 2]] and g[0]['mu'] == [1, 1])
-    st, val = rt.forked(cm.c06_group_patched, two_nests, 'names', plan=chk.tier, gen_naming='clash')
+                     and len(cm.nl_members(g[0])[0][1]) == 2 and g[0]['mus'] == [[3, 2], [2, 1]] and g[0]['mu'] == [1, 1])
+    st, val = rt.forked(cm.c06_group_patched, two_nests, 'names', plan=chk.tier, gen_naming='same')
     chk.control('nested logit terms computed from nests keyed by name: tuple-vs-named-objects and term-vs-specification clauses',
                 st == 'ok' and any(k.endswith(':tuple-vs-named-objects') for k in val['counts'])
                 and 'nl:get_mev_for_nested:term-vs-specification' in val['counts']
